@@ -143,6 +143,7 @@ func c16Exhaustive(ctx *core.Ctx) {
 				}
 				a.Services = []c16Service{svc}
 				ctx.Count("file-states-exhaustive")
+				c16Features(ctx, a)
 				ctx.Add("c16.resolve", a)
 				if (x+y+z)%ctx.Pick(5, 1) == 0 {
 					ctx.Count("file-states-load")
@@ -363,6 +364,105 @@ func c16RandArgs(r *rand.Rand, malformed, forLoad bool) c16Args {
 	return a
 }
 
+// c16Features counts, per case of a correspondence stream, which branches of the model the input reaches
+// (Model/EnvLayers.lean: loadEnvFile / loadLabelFile / loadMappingFile / parseWithFormat / parseLines / resolveMWE /
+// resolveServiceLabels / collect).  A branch whose counter stays 0 in the evidence is a hole of the stream.
+func c16Features(ctx *core.Ctx, a c16Args) {
+	seen := map[string]bool{}
+	hit := func(f string) {
+		if !seen[f] {
+			seen[f] = true
+			ctx.Count("branch:" + f)
+		}
+	}
+	failing := 0
+	for _, s := range a.Services {
+		fails := false
+		for _, kv := range s.Environment {
+			switch _, inPenv := a.Penv[*kv[0]]; {
+			case kv[1] == nil && inPenv:
+				hit("resolveMWE:valueless-found")
+			case kv[1] == nil:
+				hit("resolveMWE:valueless-not-found")
+			default:
+				hit("resolveMWE:has-value")
+			}
+		}
+		listed := map[string]bool{}
+		for _, f := range s.EnvFiles {
+			if listed[f.Path] {
+				hit("loadEnvFiles:same-file-twice")
+			}
+			listed[f.Path] = true
+			nd, ok := a.Files[f.Path]
+			switch {
+			case (!ok || nd.NotDir) && f.Required:
+				hit("loadEnvFile:missing-required")
+				fails = true
+			case !ok && !f.Required:
+				hit("loadEnvFile:missing-optional-enoent")
+			case nd.NotDir && !f.Required:
+				hit("loadEnvFile:missing-optional-enotdir")
+			case f.Format != "" && f.Format != "c16kv":
+				hit("parseWithFormat:unregistered")
+				fails = true
+			case f.Format == "c16kv" && nd.Dir:
+				hit("parseWithFormat:registered-dir")
+				fails = true
+			case f.Format == "c16kv":
+				hit("parseWithFormat:registered-file")
+			case nd.Dir:
+				hit("loadMappingFile:dir")
+				fails = true
+			default:
+				hit("loadMappingFile:file")
+				for _, l := range nd.Lines {
+					switch {
+					case l.Bare != nil:
+						hit("parseLines:bare")
+					case l.K != nil:
+						hit("parseLines:assign")
+					default:
+						hit("parseLines:bad")
+						fails = true
+					}
+				}
+			}
+		}
+		if len(s.EnvFiles) == 0 {
+			hit("loadEnvFiles:none")
+		}
+		for _, f := range s.LabelFiles {
+			nd, ok := a.Files[f]
+			switch {
+			case !ok || nd.NotDir:
+				hit("loadLabelFile:missing")
+			case nd.Dir:
+				hit("loadLabelFile:dir")
+			default:
+				hit("loadLabelFile:file")
+			}
+		}
+		if len(s.Labels) == 0 && len(s.LabelFiles) == 0 {
+			hit("resolveServiceLabels:len0-branch")
+		} else if len(s.Labels) > 0 && len(s.LabelFiles) > 0 {
+			hit("resolveServiceLabels:labels-over-files")
+		}
+		if fails {
+			failing++
+		}
+	}
+	switch {
+	case failing > 1:
+		hit("collect:several-services-fail")
+	case failing == 1 && len(a.Services) > 1:
+		hit("collect:one-of-several-fails")
+	}
+	if a.Extra {
+		hit("withServicesEnabled")
+	}
+}
+
 func c16RandomResolve(ctx *core.Ctx) {
 	n := ctx.Pick(40000, 250000)
 	for i := 0; i < n; i++ {
@@ -377,6 +477,7 @@ func c16RandomResolve(ctx *core.Ctx) {
 			a.Extra = true
 			ctx.Count("random-with-WithServicesEnabled")
 		}
+		c16Features(ctx, a)
 		ctx.Add("c16.resolve", a)
 	}
 }
